@@ -631,6 +631,20 @@ func (d *doc) features(g *refGrid) []string {
 		if all {
 			set["no-flexible-column"] = true
 		}
+		// a column-spanning cell all of whose columns are rigid: nothing can take the part of
+		// its min-content width that exceeds the columns
+		for _, c := range g.cells {
+			if c.dropped || c.ecs < 2 {
+				continue
+			}
+			allRigid := true
+			for x := c.gx; x < c.gx+c.ecs; x++ {
+				allRigid = allRigid && rigid[x]
+			}
+			if allRigid {
+				set["span-over-rigid-columns"] = true
+			}
+		}
 	}
 	// at least two rows contain a column-spanning cell: their min- and max-content widths are
 	// distributed over the columns independently of each other
@@ -689,6 +703,9 @@ func (d *doc) features(g *refGrid) []string {
 	}
 	if d.opt[dBorder] == 5 {
 		set["cell-padding"] = true
+	}
+	if d.opt[dBorder] == 1 || d.opt[dBorder] >= 3 {
+		set["cell-decoration"] = true // cells have a non-zero padding or border
 	}
 	if d.fixedEffective() {
 		set["fixed-layout"] = true
